@@ -124,3 +124,22 @@ def run(cx):
             if any(re.search(r'^moka::sync::cache::Cache::insert$', n) for n in g.callee_names(c_)):
                 callers.add(g.path)
     cx.check('C15.T1', callers == {R + 'ResponseCache::insert'}, 'moka::sync::cache::Cache::insert', 'callers', 'single-insert-path', ', '.join(sorted(callers)))
+
+    # ---------------------------------------------------------------- S2 the negative TTL handed to the cache (RFC 2308 5)
+    # "the TTL of the SOA record and the SOA MINIMUM field, whichever is lower": the value every NXDOMAIN/NODATA error carries into
+    # ResponseCache::insert is computed in DnsResponse::negative_ttl
+    nt = cx.fn('C15.S2', 'hickory_proto::op::dns_response::DnsResponse::negative_ttl')
+    if nt:
+        fam = [nt] + prog.find(r'^hickory_proto::op::dns_response::DnsResponse::negative_ttl::\{closure[^}]*\}$')
+        rets = [(g, r_) for g in fam for r_ in cx.returns(g, r'.')]
+        mins = [(g, r_) for g, r_ in rets if re.match(r'^Ord::min\((.+),(.+)\.minimum\)$|^Ord::min\((.+)\.minimum,(.+)\)$', r_.term)]
+        cx.check('C15.S2', len(mins) == 1, nt.path, 'ret', 'negative-ttl=min(soa-record-ttl,soa-minimum)', '; '.join(r_.term[:80] for g, r_ in rets))
+        for g, r_ in mins:
+            t_ = r_.term
+            direct = bool(re.match(r'^Ord::min\(arg2\.ttl,arg2\.data@SOA\.0\.minimum\)$|^Ord::min\(arg2\.data@SOA\.0\.minimum,arg2\.ttl\)$', t_))
+            paired = t_ == 'Ord::min(arg2.0,arg2.1.minimum)' and any(r2.term == 'Option::Some((arg2.ttl,arg2.data@SOA.0))' for g2, r2 in rets)
+            cx.check('C15.S2', direct or paired, g.path, r_.key(), 'both-operands-come-from-the-same-SOA-record', t_, r_.loc)
+        bare = [(g, r_) for g, r_ in rets if re.search(r'\.minimum\b', r_.term) and not r_.term.startswith('Ord::min(')]
+        cx.check('C15.S2', not bare, nt.path, 'ret', 'soa-minimum-never-returned-uncapped', '; '.join(r_.term[:80] for g, r_ in bare))
+        src = cx.returns(nt, r'.')
+        cx.check('C15.S2', any('arg1.authorities' in r_.term for r_ in src), nt.path, 'ret', 'soa-taken-from-the-authority-section', '; '.join(r_.term[:100] for r_ in src))
